@@ -178,7 +178,7 @@ class PAYEE(Aggregate):
     phone = String(32, required=True)
 
 
-class STMTTRN(Aggregate, Origcurrency):
+class STMTTRN(Origcurrency, Aggregate):
     """OFX section 11.4.3"""
 
     trntype = OneOf(*TRNTYPES, required=True)
